@@ -358,3 +358,44 @@ class CancelMonitor(Monitor):
             if not (wf == "TERMINAL" and any(s["status"] == "TERMINAL" for s in view.stages.values())):
                 v.append({"kind": "workflow-not-canceled", "wf": wf, "sig": f"workflow-not-canceled:{wf}"})
         return v
+
+
+class ExecCountMonitor(Monitor):
+    """C10/C14: no task executes more often (per arming) than in the reference run."""
+
+    name = "count"
+
+    def __init__(self, ref_ledger, slack=0, ref_max=None, ref_status=None):
+        self.ref_status = ref_status or {}
+        self.ref = dict(ref_max or {})
+        for e in ref_ledger:
+            k = (e["stage"], e["task"])
+            self.ref[k] = max(self.ref.get(k, 0), e["nth"] + 1)
+        self.slack = slack
+
+    def step(self, ex, tr, ms):
+        v = []
+        for e in tr.ledger:
+            k = (e["stage"], e["task"])
+            if e["nth"] + 1 > self.ref.get(k, 0) + self.slack:
+                v.append({"kind": "extra-execution", "task": f"{k[0]}#{k[1]}", "nth": e["nth"] + 1,
+                          "reference": self.ref.get(k, 0), "step": e["step"], "handling": handling(tr),
+                          "sig": f"extra-execution:{(e['step'] or '').rstrip('0123456789')}:ref{self.ref.get(k, 0)}"
+                                 f":refstage={self.ref_status.get(k[0], '?')}"})
+        return ms, v
+
+
+class MaxExecCollector(Monitor):
+    """Not an oracle: records, over a fault-free exploration, the largest number of
+    executions per arming of every task (the reference for racy workloads)."""
+
+    name = "maxexec"
+
+    def __init__(self):
+        self.max = {}
+
+    def step(self, ex, tr, ms):
+        for e in tr.ledger:
+            k = (e["stage"], e["task"])
+            self.max[k] = max(self.max.get(k, 0), e["nth"] + 1)
+        return ms, []
